@@ -138,17 +138,34 @@ func intBits(v, w int) []bool {
 	return out
 }
 
+// accessorOr calls an accessor of crem's own naming functions.  When the check had to stub that accessor out (it no
+// longer compiles against the tree under test: the check reports that by itself) the documented form of the id is
+// used instead, so that the suites which look at CONTENT can still run.
+func accessorOr(call func() string, documented string) (out string) {
+	defer func() {
+		if r := recover(); r != nil {
+			if strings.Contains(fmt.Sprint(r), "verif accessor unavailable") {
+				out = documented
+				return
+			}
+			panic(r)
+		}
+	}()
+	return call()
+}
+
 // realKeys returns the solution ids (= summary map keys) of one run in sort order: as-is first.
 func (nm *namer) realKeys(fam, rid string, n int) []string {
 	if fam == "single" {
 		// encodeAndSummariseOptimisedSolution builds the id inline: optimisedModel.Id()+" Solution (1/1)"
 		// (not separately callable; the `save` lines exercise the real code path end to end)
-		return []string{scenario.VerifAsIsOptimisedSolutionId(nm.saver, rid), rid + " Solution (1/1)"}
+		return []string{accessorOr(func() string { return scenario.VerifAsIsOptimisedSolutionId(nm.saver, rid) }, rid+" Solution (As-Is)"), rid + " Solution (1/1)"}
 	}
 	a := dummyArchive(rid, n)
-	out := []string{scenario.VerifAsIsSolutionId(nm.saver, a)}
+	out := []string{accessorOr(func() string { return scenario.VerifAsIsSolutionId(nm.saver, a) }, rid+" Solution (As-Is)")}
 	for k := 1; k <= n; k++ {
-		out = append(out, scenario.VerifSolutionId(nm.saver, a, k))
+		k := k
+		out = append(out, accessorOr(func() string { return scenario.VerifSolutionId(nm.saver, a, k) }, fmt.Sprintf("%s Solution (%d/%d)", rid, k, n)))
 	}
 	return out
 }
